@@ -400,9 +400,26 @@ def r84(ctx, R):
          [src(v)[:80] for v in vals], func=f)
     # trait associations: only existing traits reach set_traits
     h = prog.func('placement.handlers.trait:update_traits_for_resource_provider')
-    st = [s.node for s in ctx.cg.calls_in(h) if s.method == 'set_traits']
-    found = st[0].args[0].id if len(st) == 1 and st[0].args and isinstance(
-        st[0].args[0], ast.Name) else None
+    st = []
+    targ = None          # the traits argument as spelled in the handler
+    for c, _recv, meth in C.mutator_sites(ctx, h):
+        if meth != 'set_traits':
+            continue
+        st.append(c)
+        if isinstance(c.func, ast.Attribute) and c.func.attr == meth:
+            targ = c.args[0] if c.args else None
+        else:
+            # through a helper: the helper's parameter that it passes on
+            s_ = ctx.cg.site_of.get(c)
+            for g_ in (s_.callees if s_ is not None else []):
+                for c2, _r2, m2 in C.mutator_sites(ctx, g_, depth=0):
+                    if m2 == meth and c2.args and isinstance(
+                            c2.args[0], ast.Name) and c2.args[0].id in \
+                            g_.params:
+                        j = g_.params.index(c2.args[0].id)
+                        if j < len(c.args):
+                            targ = c.args[j]
+    found = targ.id if len(st) == 1 and isinstance(targ, ast.Name) else None
 
     def _missing_test(t):
         # truth of (requested names - names of the objects found)
@@ -420,8 +437,8 @@ def r84(ctx, R):
     okt = len(st) == 1 and bads and cfgmod.cfg_of(h).dominates(
         bads[0], C.stmt_of(st[0]))
     arg_ok = False
-    if len(st) == 1 and st[0].args and isinstance(st[0].args[0], ast.Name):
-        d = single_def(h, st[0].args[0].id)
+    if len(st) == 1 and isinstance(targ, ast.Name):
+        d = single_def(h, targ.id)
         arg_ok = d is not None and 'placement.objects.trait:get_all' in \
             C.call_name(ctx, h, d.value) if d is not None and isinstance(
                 d.value, ast.Call) else False
@@ -435,14 +452,15 @@ def r84(ctx, R):
     ins = [e for e in ctx.effects.direct[f] if e.op == 'I']
     oka = len(ens) == 1 and len(ins) == 1
     if oka:
-        est = C.stmt_of(ens[0])
-        tgt = est.targets[0].id if isinstance(est, ast.Assign) and \
-            isinstance(est.targets[0], ast.Name) else None
-        # the id flows into the dict iterated by the insert loop
-        oka = tgt is not None and any(
-            isinstance(x, ast.Assign) and any(
-                isinstance(t, ast.Subscript) and src(t.slice) == tgt
-                for t in x.targets) for x in own_nodes(f.node))
+        # the id written into the association row derives from the
+        # _ensure_aggregate call (whatever builds the collection in between)
+        deps = C.Deps(f)
+        vals = [k.value for x in own_nodes(f.node)
+                if isinstance(x, ast.Call) and isinstance(
+                    x.func, ast.Attribute) and x.func.attr == 'values'
+                for k in x.keywords if k.arg == 'aggregate_id']
+        oka = len(vals) == 1 and deps.reaches(
+            vals[0], lambda x: x is ens[0])
     R.ob('R8.4', '_set_aggregates:aggregate-id', oka,
          'association rows use the id returned by _ensure_aggregate',
          '%d ensure calls' % len(ens), func=f)
@@ -453,22 +471,25 @@ def r84(ctx, R):
             'save'}
     for hf in C.handler_defs(ctx):
         impl, _ = C.impl_of(ctx, hf)
-        for s in ctx.cg.calls_in(impl):
-            if s.method in muts and any(
+        for _call, recv, meth in C.mutator_sites(ctx, impl) + [
+                (s.node, s.node.func.value, s.method)
+                for s in ctx.cg.calls_in(impl)
+                if s.method in ('destroy', 'save') and isinstance(
+                    s.node.func, ast.Attribute) and any(
                     g.cls is not None and g.cls.name == 'ResourceProvider'
-                    for g in s.callees):
-                recv = s.node.func.value
+                    for g in s.callees)]:
+            if True:
                 d = single_def(impl, recv.id) if isinstance(
                     recv, ast.Name) else None
                 ok = d is not None and isinstance(d.value, ast.Call) and \
                     RP_GET in C.call_name(ctx, impl, d.value)
                 n += 1
                 R.ob('R8.4', '%s:%s-on-loaded-provider' % (
-                    hf.qname, s.method), ok,
+                    hf.qname, meth), ok,
                     'the mutator is applied to a provider loaded in this '
                     'request (a missing one is a 404)',
                     src(d.value)[:60] if d is not None else 'unknown '
-                    'receiver', func=impl, node=s.node, nontrivial=False)
+                    'receiver', func=impl, node=_call, nontrivial=False)
     R.count('R8.4', n, 12)
 
 
